@@ -21,6 +21,9 @@ import tempfile
 import time
 
 
+MEMORY_LIMIT = 4 << 30      # address space of one run of the tool (a run that needs more ends in MemoryError)
+
+
 def serve(tool, modname, limit):
     m = importlib.import_module(modname)
     inp = sys.stdin
@@ -39,6 +42,11 @@ def serve(tool, modname, limit):
             # ---- the run ----
             rc = 70
             try:
+                try:
+                    import resource
+                    resource.setrlimit(resource.RLIMIT_AS, (MEMORY_LIMIT, MEMORY_LIMIT))
+                except Exception:
+                    pass
                 o = os.open(fo, os.O_WRONLY | os.O_CREAT | os.O_TRUNC, 0o600)
                 e = os.open(fe, os.O_WRONLY | os.O_CREAT | os.O_TRUNC, 0o600)
                 z = os.open(os.devnull, os.O_RDONLY)
